@@ -604,18 +604,18 @@ example : logProduct (([] : List ℝ).map fin) = fin 0 := by
 /-! ## (g) Gumbel-max samplers `ln_pflip`, `gumbel_pflip` on `X` -/
 
 -- @site ln_pflip
-/-- `ln_pflip` with variates in `(0,1)` and log-weights in `ℝ ∪ {-inf}` of which AT MOST ONE is `-inf`: no comparison
-    panics, the index is inside the vector, and it is not the `-inf` index (unless that is the only entry).
+/-- `ln_pflip` (Gumbel keys `ln_w − ln(−ln u)`) with variates in `(0,1)` and log-weights in `ℝ ∪ {-inf}`, ANY number of
+    them `-inf`: no comparison panics, the index is inside the vector, and it is not a `-inf` index unless all are `-inf`.
     PARTIAL.  Full statement, NOT proved: for independent `U₀,…,U_{n-1}` uniform on `(0,1)`,
-      `P(ln_pflip lnw U = i) = exp(lnwᵢ) / Σⱼ exp(lnwⱼ)`   (Gumbel-max / exponential-race argument: `-ln Uᵢ / wᵢ` are
-    independent exponentials of rate `wᵢ` and the comparator selects the smallest).  Missing: the joint law of `n`
-    exponentials (a measure-theoretic statement outside the variate-function model); it is only tested statistically. -/
+      `P(ln_pflip lnw U = i) = exp(lnwᵢ) / Σⱼ exp(lnwⱼ)`   (Gumbel-max: `lnwᵢ − ln(−ln Uᵢ)` are independent Gumbel variables
+    with locations `lnwᵢ`).  Missing: the joint law of `n` independent variates (a measure-theoretic statement outside the
+    variate-function model); it is only tested statistically. -/
 theorem lnPflip_total_partial (lnw us : List X) (hlen : us.length = lnw.length) (hne : lnw ≠ [])
-    (hw : ∀ w ∈ lnw, IsFinOrNinf w) (hp : lnw.Pairwise (fun a b => ¬ (a = ninf ∧ b = ninf)))
+    (hw : ∀ w ∈ lnw, IsFinOrNinf w)
     (hu : ∀ u ∈ us, ∃ a : ℝ, u = fin a ∧ 0 < a ∧ a < 1) :
-    ∃ i, lnPflip lnw us = some i ∧ i < lnw.length ∧ (lnw ≠ [ninf] → idxR lnw i ≠ ninf) := by
-  obtain ⟨x, t, hitems, hmem, hsingle, hpair, _⟩ :=
-    items_facts lnw (us.map RealLike.ln) (by simpa using hlen) hne
+    ∃ i, lnPflip lnw us = some i ∧ i < lnw.length ∧ (fins lnw ≠ [] → idxR lnw i ≠ ninf) := by
+  obtain ⟨x, t, hitems, hmem, _, _, hex⟩ :=
+    items_facts lnw (us.map (fun u => RealLike.ln (-(RealLike.ln u)))) (by simpa using hlen) hne
   have hg : ∀ it ∈ x :: t, GoodLn it := by
     intro it hit
     obtain ⟨h1, h2, h3⟩ := hmem it hit
@@ -623,31 +623,24 @@ theorem lnPflip_total_partial (lnw us : List X) (hlen : us.length = lnw.length) 
     · rw [h2, idxR_of_lt _ h1]; exact hw _ (List.getElem_mem _)
     · obtain ⟨u, hu', e⟩ := List.mem_map.mp h3
       obtain ⟨a, rfl, ha0, ha1⟩ := hu u hu'
-      exact ⟨Real.log a, by rw [← e, X.ln_fin_pos ha0], Real.log_neg ha0 ha1⟩
-  obtain ⟨b, hb, hbm, hfin⟩ := lnPflipLoop_total t x hg (hpair _ hp)
+      have hl : 0 < -Real.log a := by linarith [Real.log_neg ha0 ha1]
+      exact ⟨Real.log (-Real.log a), by rw [← e, X.ln_fin_pos ha0, X.neg_fin, X.ln_fin_pos hl]⟩
+  obtain ⟨b, hb, hbm, hfin⟩ := lnPflipLoop_total t x hg
   obtain ⟨hb1, hb2, _⟩ := hmem b hbm
-  refine ⟨b.1, ?_, hb1, fun hns => ?_⟩
+  refine ⟨b.1, ?_, hb1, fun hf => ?_⟩
   · unfold lnPflip
     simp only [hitems, maxBy, hb, Option.map_some]
   · rw [← hb2]
     apply hfin
-    by_cases ht : t = []
-    · left
-      obtain ⟨hx1, hx2, _⟩ := hmem x (by simp)
-      have hl1 := hsingle ht
-      intro hx
-      apply hns
-      match lnw, hl1 with
-      | [w], _ =>
-        have : x.1 = 0 := by simpa using hx1
-        rw [this] at hx2
-        simp only [idxR, List.getD_cons_zero] at hx2
-        rw [← hx2, hx]
-    · exact Or.inr ht
+    -- a finite log-weight exists, hence an item with a finite log-weight
+    have := exists_ne_ninf_of_fins lnw hf
+    obtain ⟨w, hw', hwn⟩ := this
+    obtain ⟨it, hit, e⟩ := hex w hw'
+    exact ⟨it, hit, by rw [e]; exact hwn⟩
 
-example : ∃ i, lnPflip [fin 0, ninf, fin 1] [fin (1/2), fin (1/3), fin (1/4)] = some i ∧ i < 3 := by
-  obtain ⟨i, h1, h2, _⟩ := lnPflip_total_partial [fin 0, ninf, fin 1] [fin (1/2), fin (1/3), fin (1/4)] rfl
-    (by simp) (by simp) (by simp) (by
+example : ∃ i, lnPflip [fin 0, ninf, ninf] [fin (1/2), fin (1/3), fin (1/4)] = some i ∧ i < 3 := by
+  obtain ⟨i, h1, h2, _⟩ := lnPflip_total_partial [fin 0, ninf, ninf] [fin (1/2), fin (1/3), fin (1/4)] rfl
+    (by simp) (by simp) (by
       intro u hu; simp at hu
       rcases hu with rfl | rfl | rfl
       · exact ⟨_, rfl, by norm_num, by norm_num⟩
@@ -656,30 +649,41 @@ example : ∃ i, lnPflip [fin 0, ninf, fin 1] [fin (1/2), fin (1/3), fin (1/4)] 
   exact ⟨i, h1, h2⟩
 
 -- @site ln_pflip
-/-- DEFECT.  Two `-inf` log-weights (two impossible categories — what `ln_pflips` handles fine): the comparator evaluates
-    `(-inf) − (-inf) = NaN`, `partial_cmp` returns `None` and `unwrap()` panics — whatever the variates are. -/
-theorem lnPflip_two_ninf_counterexample (u1 u2 : X) : lnPflip [ninf, ninf] [u1, u2] = none := by
-  have r2 : List.range 2 = [0, 1] := rfl
-  simp [lnPflip, maxBy, maxByLoop, lnPflipCmp, pcmp_nan_right, r2]
+/-- headline for `ln_pflip`: for EVERY list of 64-bit generator words (one per weight, mapped by `Open01`) the call does
+    not panic, the index is inside the vector and its log-weight is not `-inf` unless all are -/
+theorem lnPflip_every_word (lnw : List X) (hne : lnw ≠ []) (hw : ∀ w ∈ lnw, IsFinOrNinf w)
+    (words : List Nat) (hlen : words.length = lnw.length) (hw64 : ∀ w ∈ words, w < 2 ^ 64) :
+    ∃ i, lnPflip lnw (words.map open01) = some i ∧ i < lnw.length ∧ (fins lnw ≠ [] → idxR lnw i ≠ ninf) := by
+  apply lnPflip_total_partial lnw _ (by simpa using hlen) hne hw
+  intro u hu
+  obtain ⟨w, hw', rfl⟩ := List.mem_map.mp hu
+  obtain ⟨h1, h2⟩ := open01_range w (hw64 w hw')
+  exact ⟨_, open01_X w, lt_of_lt_of_le (by positivity) h1, lt_of_le_of_lt h2 (by norm_num)⟩
+
+/-- the former panic witnesses: two `-inf` log-weights; one `-inf` and the extreme words `0`, `2⁶⁴−1` -/
+example : ∃ i, lnPflip [ninf, ninf] ([0, 2 ^ 64 - 1].map open01) = some i ∧ i < 2 := by
+  obtain ⟨i, h1, h2, _⟩ := lnPflip_every_word [ninf, ninf] (by simp) (by simp) [0, 2 ^ 64 - 1] rfl (by
+    intro w hw; simp at hw; rcases hw with rfl | rfl <;> norm_num)
+  exact ⟨i, h1, h2⟩
+
+example : ∃ i, lnPflip [ninf, fin 0] ([2 ^ 64 - 1, 0].map open01) = some i ∧ i < 2 ∧ idxR [ninf, fin 0] i ≠ ninf := by
+  obtain ⟨i, h1, h2, h3⟩ := lnPflip_every_word [ninf, fin 0] (by simp) (by simp) [2 ^ 64 - 1, 0] rfl (by
+    intro w hw; simp at hw; rcases hw with rfl | rfl <;> norm_num)
+  exact ⟨i, h1, h2, h3 (by simp)⟩
 
 -- @site ln_pflip
-/-- DEFECT.  `rng.gen::<f64>()` delivers `0` (`std01_eq_zero_iff`: 2048 words), `ln 0 = -inf`, and then
-    (a) with ONE `-inf` log-weight in front the comparator computes `-inf · e^{-inf} = -inf · 0 = NaN` and panics;
-    (b) a `-inf` log-weight *after* the item that drew `u = 0` ties (`-inf` against `ln u₂ · e^{+inf} = -inf`) and,
-        `max_by` keeping the last maximum, the index of the impossible category is returned. -/
-theorem lnPflip_zero_variate_counterexample :
-    (std01 0 : X) = fin 0 ∧
-    lnPflip [ninf, fin 0] [fin (1/2), std01 0] = none ∧
-    lnPflip [fin 0, ninf] [std01 0, fin (1/2)] = some 1 := by
-  have h0 : (std01 0 : X) = fin 0 := by simp [std01]
-  have hl : Real.log (1/2) < 0 := Real.log_neg (by norm_num) (by norm_num)
-  have hl' : Real.log 2 > 0 := Real.log_pos (by norm_num)
+/-- all log-weights `-inf` (an invalid weight vector): every key is `-inf`, every comparison is `Equal`, the LAST index wins
+    (`Iterator::max_by`) — no panic -/
+theorem lnPflip_all_ninf (u1 u2 : ℝ) (h1 : 0 < u1 ∧ u1 < 1) (h2 : 0 < u2 ∧ u2 < 1) :
+    lnPflip [ninf, ninf] [fin u1, fin u2] = some 1 := by
   have r2 : List.range 2 = [0, 1] := rfl
-  refine ⟨h0, ?_, ?_⟩
-  · rw [h0]
-    simp [lnPflip, maxBy, maxByLoop, lnPflipCmp, pcmp_nan_right, r2]
-  · rw [h0]
-    simp [lnPflip, maxBy, maxByLoop, lnPflipCmp, pcmp, RealLike.ge, hl'.ne', not_lt.mpr hl'.le, r2]
+  have l1 : 0 < -Real.log u1 := by linarith [Real.log_neg h1.1 h1.2]
+  have l2 : 0 < -Real.log u2 := by linarith [Real.log_neg h2.1 h2.2]
+  simp [lnPflip, maxBy, maxByLoop, r2, X.ln_fin_pos h1.1, X.ln_fin_pos h2.1, X.ln_fin_pos l1, X.ln_fin_pos l2,
+    lnCmp_ninf_ninf]
+
+example : lnPflip [ninf, ninf] [fin (1/2), fin (1/2)] = some 1 :=
+  lnPflip_all_ninf _ _ (by norm_num) (by norm_num)
 
 -- @site gumbel_pflip
 /-- `gumbel_pflip` with variates in `(0,1)` and finite non-negative weights: no comparison panics, the index is inside
@@ -787,14 +791,27 @@ example : ∃ i, gumbelPflip [fin 0, fin 2] [fin (1/2), fin (1/3)] = some i ∧ 
   exact ⟨i, h1, h2⟩
 
 -- @site gumbel_pflip
-/-- DEFECT.  A zero weight and the variate `0` (generator words below `2¹¹`): `0 · ln 0 = 0 · (-inf) = NaN`,
-    `partial_cmp(..).unwrap()` panics. -/
-theorem gumbelPflip_zero_variate_counterexample :
-    gumbelPflip [fin 1, fin 0] [std01 0, fin (1/2)] = none := by
-  have h0 : (std01 0 : X) = fin 0 := by simp [std01]
-  have r2 : List.range 2 = [0, 1] := rfl
-  rw [h0]
-  simp [gumbelPflip, maxBy, maxByLoop, gumbelCmp, pcmp_nan_left, r2]
+/-- headline for `gumbel_pflip` (variates from `Open01` after the repair): for EVERY list of 64-bit generator words the
+    call does not panic, the index is inside the vector and its weight is positive (weights finite, `≥ 0`, not all zero) -/
+theorem gumbelPflip_every_word (ws : List X) (hne : ws ≠ []) (hw : ∀ w ∈ ws, ∃ a : ℝ, w = fin a ∧ 0 ≤ a)
+    (words : List Nat) (hlen : words.length = ws.length) (hw64 : ∀ w ∈ words, w < 2 ^ 64) :
+    ∃ i, gumbelPflip ws (words.map open01) = some i ∧ i < ws.length ∧
+      ((∃ w ∈ ws, ∃ a : ℝ, w = fin a ∧ 0 < a) → ∃ a : ℝ, idxR ws i = fin a ∧ 0 < a) := by
+  apply gumbelPflip_total_partial ws _ (by simpa using hlen) hne hw
+  intro u hu
+  obtain ⟨w, hw', rfl⟩ := List.mem_map.mp hu
+  obtain ⟨h1, h2⟩ := open01_range w (hw64 w hw')
+  exact ⟨_, open01_X w, lt_of_lt_of_le (by positivity) h1, lt_of_le_of_lt h2 (by norm_num)⟩
+
+/-- the former panic witness: weights `[1, 0]`, generator words `0` and `2⁶³` -/
+example : ∃ i, gumbelPflip [fin 1, fin 0] ([0, 2 ^ 63].map open01) = some i ∧ i < 2 ∧
+    ∃ a : ℝ, idxR [fin 1, fin 0] i = fin a ∧ 0 < a := by
+  obtain ⟨i, h1, h2, h3⟩ := gumbelPflip_every_word [fin 1, fin 0] (by simp)
+    (by intro w hw; simp at hw; rcases hw with rfl | rfl
+        · exact ⟨1, rfl, by norm_num⟩
+        · exact ⟨0, rfl, le_refl _⟩)
+    [0, 2 ^ 63] rfl (by intro w hw; simp at hw; rcases hw with rfl | rfl <;> norm_num)
+  exact ⟨i, h1, h2, h3 ⟨fin 1, by simp, 1, rfl, by norm_num⟩⟩
 
 /-! ## (h) `ln_pflips` = `pflips ∘ exp` -/
 
@@ -840,8 +857,22 @@ theorem lnPflips_eq_pflips_exp (lnw : List X) (hw : ∀ w ∈ lnw, IsFinOrNinf w
     have : expWeights lnw = (lnw.map expw).map R.mk := by simp [expWeights]
     unfold Gen.cumsum
     rw [h0, this, scanL_R]
-  unfold lnPflips pflips
-  rw [List.map_map, List.map_map]
+  -- `total = cws.last()` is exactly `1` in exact arithmetic: `r = u · total = u`
+  have hne' : lnw.map expw ≠ [] := by
+    intro h; apply hne; simp [expWeights] at h ⊢; exact h
+  have htot : (lnCws lnw normed).getLast?.getD (1.0 : X) = fin 1 := by
+    rw [h1, List.getLast?_map, scanL_real_last _ hne' 0, zero_add, hsum]
+    simp [div_self hS.ne']
+  have hlhs : lnPflips lnw normed (us.map fin) =
+      us.map (fun a => Gen.catflip (lnCws lnw normed) (fin a)) := by
+    unfold lnPflips
+    simp only [htot, List.map_map]
+    apply List.map_congr_left
+    intro a _
+    simp
+  rw [hlhs]
+  unfold pflips
+  rw [List.map_map]
   apply List.map_congr_left
   intro a _
   simp only [Function.comp]
@@ -926,6 +957,40 @@ example : ∀ o ∈ lnPflips [fin 0, ninf, fin 0] false ([0, 2 ^ 64 - 1].map ope
   lnPflips_every_word _ (by simp) (by simp) (length_lt_fuel _ (by simp)) false (by simp) _ (by
     intro w hw; simp at hw; rcases hw with rfl | rfl <;> norm_num)
 
+/-! ## (i) the binary64 rounding argument behind `r = u · total < total` (`pflip`, `pflips`, `ln_pflips`)
+
+  `X` and `R` have no rounding, so there `u · total < total` is immediate from `u < 1`.  On binary64 the product is rounded;
+  the samplers stay total because the rounded product is still strictly below `total`.  Integer model (Lemmas/C13B.lean,
+  `rne`): `total = m · 2^e` with `2^52 ≤ m < 2^53` (a positive normal number), `u = k / 2^53` with `k ≤ 2^53 − 1` (all
+  three variate maps; `open01` attains the top value), exact product `(k·m / 2^53) · 2^e`, result `rne (k·m) 53 · 2^e`
+  when the product stays in the binade of `m − 1`.
+  NOT modelled (left to the correspondence check on the real code): the exponent range (a `total` below `2^-1021` — min normal
+  and subnormals — does round back to `total`; impossible for normalised weights), and the rounding of `total` itself. -/
+
+-- @site ln_pflips
+/-- `m` not a power of two: the top variate times `m` lies in `(m−1, m−½)` and rounds to `m − 1`, the predecessor of
+    `total`; every smaller variate rounds to at most that (monotonicity of round-to-nearest-even) -/
+theorem scaled_variate_rounds_below (m k : Nat) (h1 : 2 ^ 52 < m) (h2 : m < 2 ^ 53) (hk : k ≤ 2 ^ 53 - 1) :
+    rne ((2 ^ 53 - 1) * m) 53 = m - 1 ∧ rne (k * m) 53 ≤ m - 1 := by
+  have top : rne ((2 ^ 53 - 1) * m) 53 = m - 1 := by
+    unfold rne
+    simp only []
+    norm_num at h1 h2 ⊢
+    split_ifs <;> omega
+  exact ⟨top, top ▸ rne_mono53 _ _ (Nat.mul_le_mul_right m hk)⟩
+
+example : rne ((2 ^ 53 - 1) * (2 ^ 52 + 1)) 53 = 2 ^ 52 :=
+  (scaled_variate_rounds_below (2 ^ 52 + 1) 0 (by norm_num) (by norm_num) (by norm_num)).1
+
+-- @site ln_pflips
+/-- `m = 2^52` (`total` a power of two, e.g. exactly `1.0`): the top product `(2^53 − 1) · 2^{e−1}` is representable in the
+    binade below (spacing `2^{e−1}`, i.e. shift 52): no rounding at all, and it is `< total` -/
+theorem scaled_variate_pow2 :
+    rne ((2 ^ 53 - 1) * 2 ^ 52) 52 = 2 ^ 53 - 1 ∧ ((2 ^ 53 - 1) * 2 ^ 52) % 2 ^ 52 = 0 ∧ 2 ^ 53 - 1 < 2 * 2 ^ 52 := by
+  refine ⟨?_, by norm_num, by norm_num⟩
+  unfold rne
+  norm_num
+
 end C13
 
 #print axioms C13.std01_range
@@ -960,12 +1025,14 @@ end C13
 #print axioms C13.logProduct_spec
 #print axioms C13.logProduct_zero_spec
 #print axioms C13.lnPflip_total_partial
-#print axioms C13.lnPflip_two_ninf_counterexample
-#print axioms C13.lnPflip_zero_variate_counterexample
+#print axioms C13.lnPflip_every_word
+#print axioms C13.lnPflip_all_ninf
 #print axioms C13.gumbelPflip_total_partial
-#print axioms C13.gumbelPflip_zero_variate_counterexample
+#print axioms C13.gumbelPflip_every_word
 #print axioms C13.lnPflips_eq_pflips_exp
 #print axioms C13.lnPflips_in_range_positive
 #print axioms C13.pflip_every_word
 #print axioms C13.lnPflips_every_word
 #print axioms C13.pflips_every_word
+#print axioms C13.scaled_variate_rounds_below
+#print axioms C13.scaled_variate_pow2
